@@ -260,7 +260,13 @@ impl<R: Reader> ArangeEntryIter<R> {
                 None => return Ok(None),
             };
 
-            let entry = self.convert_raw(raw_entry)?;
+            let entry = match self.convert_raw(raw_entry) {
+                Ok(entry) => entry,
+                Err(e) => {
+                    self.input.empty();
+                    return Err(e);
+                }
+            };
             if entry.is_some() {
                 return Ok(entry);
             }
